@@ -11,6 +11,7 @@ use std::collections::{BTreeMap, BTreeSet, HashMap, HashSet};
 
 pub struct C06;
 
+pub const SPX: &str = "spx = #['int, 'bin] { | =[0, acc] => acc | =[n, acc] => [[n, 1] __integer_subtract__, [acc, 0x01] __binary_concat__] ^ }";
 pub const SPB: &str = "spb = #['int, 'bin] { | =[0, acc] => acc | =[n, acc] => [[n, 1] __integer_subtract__, [acc, 0x00] __binary_concat__] ^ }";
 
 /// Generator of distinct binary expressions with known bytes.
@@ -255,6 +256,97 @@ fn episode(k: usize, kind: u64, rng: &mut Rng, g: &mut BinGen) -> (Vec<String>, 
             st.push(format!("r{k} = {y}"));
             exp = yb;
         }
+        20 => {
+            // repeated binder -> Equal on heap binaries
+            let (x, xb) = g.heap(rng);
+            st.push(format!("a{k} = {x}"));
+            st.push(format!("r{k} = [a{k}, a{k}] {{ =[x, x] => x | 0x }}"));
+            exp = xb;
+        }
+        21 => {
+            // Get on nested tuples holding the same binary twice
+            let (x, xb) = g.heap(rng);
+            let (l1, _) = g.lit(rng);
+            let (l2, _) = g.lit(rng);
+            st.push(format!("a{k} = {x}"));
+            st.push(format!("t{k} = [[a{k}, {l1}], [{l2}, a{k}]]"));
+            st.push(format!("r{k} = [t{k}.0.0, t{k}.1.1] __binary_concat__"));
+            exp = cat(&xb, &xb);
+        }
+        22 => {
+            // the same heap binary twice in one message (index dedup in extract/inject)
+            let (x, xb) = g.heap(rng);
+            st.push(format!("a{k} = {x}"));
+            st.push(format!("e{k} = @#{{ !#['bin, 'bin] =[x, y], [y, x] __binary_concat__ }}"));
+            st.push(format!("[a{k}, a{k}] e{k}"));
+            st.push(format!("r{k} = !e{k}"));
+            exp = cat(&xb, &xb);
+        }
+        23 => {
+            // a constant and a heap binary in one message
+            let (x, xb) = g.heap(rng);
+            let (l, lb) = g.lit(rng);
+            st.push(format!("a{k} = {x}"));
+            st.push(format!("e{k} = @#{{ !#['bin, 'bin] =[x, y], [y, x] __binary_concat__ }}"));
+            st.push(format!("[{l}, a{k}] e{k}"));
+            st.push(format!("r{k} = !e{k}"));
+            exp = cat(&xb, &lb);
+        }
+        24 => {
+            // a process that fails while holding binaries in locals and on the stack (not awaited)
+            let (x, _) = g.heap(rng);
+            let (y, yb) = g.heap(rng);
+            let how = if rng.chance(1, 2) { "[1, 0] __integer_divide__".to_string() } else { "[x, 99, 100] __binary_slice__".to_string() };
+            st.push(format!("c{k} = @{{ x = {x}, z = [x, x] __binary_concat__, [[z, x], {how}] }}"));
+            st.push(format!("r{k} = {y}"));
+            exp = yb;
+        }
+        25 => {
+            // a binary produced by an effect completion (file read) and one consumed by an effect (write)
+            let (x, xb) = g.heap(rng);
+            let (l, lb) = g.lit(rng);
+            st.push(format!("a{k} = {x}"));
+            st.push(format!("f{k} = [\"/c06_{k}\" .0, 577, 420] __file_open__"));
+            st.push(format!("w{k} = [f{k}, 0, a{k}] __file_write__"));
+            st.push(format!("d{k} = [f{k}, 0, 64] __file_read__"));
+            st.push(format!("f{k} __file_close__"));
+            st.push(format!("r{k} = [d{k}, {l}] __binary_concat__"));
+            exp = cat(&xb, &lb);
+        }
+        26 => {
+            // slice of a slice, concat with the empty binary
+            let (x, xb) = g.concat(rng, 3);
+            if xb.len() >= 5 {
+                st.push(format!("a{k} = {x}"));
+                st.push(format!("s{k} = [[a{k}, 1, {}] __binary_slice__, 1, {}] __binary_slice__", xb.len() - 1, xb.len() - 3));
+                st.push(format!("r{k} = [[0x, s{k}] __binary_concat__, 0x] __binary_concat__"));
+                exp = xb[2..xb.len() - 2].to_vec();
+            } else {
+                st.push(format!("r{k} = [{x}, 0x] __binary_concat__"));
+                exp = xb;
+            }
+        }
+        27 => {
+            // tail calls between closures that captured heap binaries
+            let (x, xb) = g.heap(rng);
+            let (y, yb) = g.heap(rng);
+            let (l, lb) = g.lit(rng);
+            st.push(format!("ca{k} = {x}"));
+            st.push(format!("cb{k} = {y}"));
+            st.push(format!("g{k} = #'bin {{ [~, cb{k}] __binary_concat__ }}"));
+            st.push(format!("f{k} = #'bin {{ [~, ca{k}] __binary_concat__ ^g{k} }}"));
+            st.push(format!("r{k} = {l} f{k}"));
+            exp = cat(&cat(&lb, &xb), &yb);
+        }
+        28 => {
+            // a deep rope built by a loop
+            let (x, xb) = g.heap(rng);
+            let n = 5 + rng.usize(25);
+            st.push(format!("r{k} = [{n}, {x}] spx"));
+            let mut e = xb;
+            e.extend(std::iter::repeat_n(1u8, n));
+            exp = e;
+        }
         _ => {
             // two filter sources: a message for the higher-priority one can arrive while the
             // lower-priority filter is in flight
@@ -272,7 +364,7 @@ fn episode(k: usize, kind: u64, rng: &mut Rng, g: &mut BinGen) -> (Vec<String>, 
     (st, exp)
 }
 
-pub const NKINDS: u64 = 20;
+pub const NKINDS: u64 = 30;
 
 impl Property for C06 {
     fn id(&self) -> &'static str {
@@ -341,7 +433,7 @@ impl Property for C06 {
         }
         let fin = format!("[{}]", (0..neps).map(|k| format!("r{k}")).collect::<Vec<_>>().join(", "));
         let expected = format!("[{}]", exps.iter().map(|b| format!("0x{}", crate::canon::hex(b))).collect::<Vec<_>>().join(", "));
-        let defs = format!("{}, {}", super::c04::SPIN, SPB);
+        let defs = format!("{}, {}, {}", super::c04::SPIN, SPB, SPX);
         let mode = rng.below(4);
         h.u64(mode);
         let mut ops = super::c03::noise_ops(rng);
